@@ -20,3 +20,17 @@ Definition st_eqb (s : st) (r : list nat * list nat * list Q) : bool :=
   let '(c, a, d) := r in
   nat_list_eqb (fst s) c && nat_list_eqb (labels s) a && q_list_eqb (dists s) d.
 Definition st_show (s : st) : list nat * list nat * list Q := (fst s, labels s, dists s).
+
+(* The implementation's distance matrix as a total oracle: inside [0,n)x[0,n) the matrix, outside
+   (never evaluated by a run on n frames) any value consistent with "distinct points". *)
+Definition Dext (m : list (list Q)) (n : nat) (c f : nat) : Q :=
+  if (c <? n) && (f <? n) then Dm m c f else if c =? f then 0 else 1.
+(* zero diagonal, positive off-diagonal: the data points are pairwise distinct under the metric *)
+Definition valid_matrix (m : list (list Q)) (n : nat) : bool :=
+  forallb (fun c => forallb (fun f => if c =? f then Qeq_bool (Dm m c f) 0 else Qlt_b 0 (Dm m c f))
+                            (seq 0 n)) (seq 0 n).
+Definition sym_matrix (m : list (list Q)) (n : nat) : bool :=
+  forallb (fun c => forallb (fun f => Qeq_bool (Dm m c f) (Dm m f c)) (seq 0 n)) (seq 0 n).
+Definition tri_matrix (m : list (list Q)) (n : nat) : bool :=
+  forallb (fun a => forallb (fun b => forallb (fun c => Qle_bool (Dm m a c) (Dm m a b + Dm m b c))
+                                              (seq 0 n)) (seq 0 n)) (seq 0 n).
